@@ -341,7 +341,7 @@ fn main() {
             }
         }
     }
-    let max_b = 3;
+    let max_b = if args.tier == Tier::Thorough { 4 } else { 3 };
     let max_o = if args.tier == Tier::Thorough { 4 } else { 3 };
     rep.rule = format!(
         "all bucket lists of length 0..={} over the 9-value f64 pool {:?}; for every list all 7 paths; for every accepted list all observation sequences of length 0..={} over the same pool (which contains every bound). distinct = distinct (bucket-class, accepted?, path, snapshot) outcomes",
